@@ -68,7 +68,7 @@ func corpusOpener(file string) source.Opener {
 }
 
 const (
-	c14Specials = 48 // pathological + cycles + opener faults
+	c14Specials = 70 // pathological + cycles + opener faults
 )
 
 func (c14) NumCases(tier string, seed int64) int {
@@ -421,6 +421,35 @@ func (p c14) special(c *core.Ctx, k int) {
 		sp{name: "include-mutual-with-data", byName: "a", mods: map[string]string{"a": hdr("a") + "include s1; }",
 			"s1": "submodule s1 { belongs-to a { prefix a; } include s2; leaf p { type string; } }", "s2": "submodule s2 { belongs-to a { prefix a; } include s1; leaf q { type string; } }"}},
 		sp{name: "include-self", byName: "a", mods: map[string]string{"a": hdr("a") + "include s1; }", "s1": "submodule s1 { belongs-to a { prefix a; } include s1; }"}},
+		sp{name: "typedef-cycle-across-modules", byName: "a", mods: map[string]string{
+			"a": hdr("a") + "import b { prefix o; } typedef ta { type o:tb; } leaf x { type ta; } }",
+			"b": hdr("b") + "import a { prefix m; } typedef tb { type m:ta; } }"}},
+		sp{name: "typedef-cycle-three-modules", byName: "a", mods: map[string]string{
+			"a": hdr("a") + "import b { prefix p; } typedef ta { type p:tb; } }",
+			"b": hdr("b") + "import c { prefix p; } typedef tb { type p:tc; } }",
+			"c": hdr("c") + "import a { prefix p; } typedef tc { type p:ta; } }"}},
+		sp{name: "grouping-cycle-across-modules", byName: "a", mods: map[string]string{
+			"a": hdr("a") + "import b { prefix o; } grouping ga { uses o:gb; } uses ga; }",
+			"b": hdr("b") + "import a { prefix m; } grouping gb { uses m:ga; } }"}},
+		sp{name: "grouping-cycle-three", text: hdr("m") + "grouping a { uses b; } grouping b { uses c; } grouping c { uses a; } uses a; }"},
+		sp{name: "config-in-notification", text: hdr("m") + "notification n { leaf a { type string; config true; } } }"},
+		sp{name: "config-in-rpc-input", text: hdr("m") + "rpc r { input { container c { config true; leaf a { type string; } } } output { leaf o { config false; type string; } } } }"},
+		sp{name: "config-in-grouping-used-in-action", text: hdr("m") + "grouping g { leaf a { type string; config true; } } container c { action x { input { uses g; } } } }"},
+		sp{name: "augment-action-into-leaf", text: hdr("m") + "container c { leaf l { type string; } } augment \"/c/l\" { action z; } }"},
+		sp{name: "augment-leaf-into-leaf", text: hdr("m") + "container c { leaf l { type string; } } augment \"/c/l\" { leaf z { type string; } } }"},
+		sp{name: "augment-notification-into-choice", text: hdr("m") + "container c { choice ch { leaf l { type string; } } } augment \"/c/ch\" { notification z; } }"},
+		sp{name: "deviate-not-supported-case", text: hdr("m") + "container z { choice ch { case k { leaf kl { type string; } } case j { leaf jl { type string; } } } } deviation \"/z/ch/k\" { deviate not-supported; } }"},
+		sp{name: "deviate-add-default-anydata", text: hdr("m") + "anydata z; deviation \"/z\" { deviate add { default \"a\"; } } }"},
+		sp{name: "deviate-add-units-anydata", text: hdr("m") + "anydata z; deviation \"/z\" { deviate add { units \"a\"; } } }"},
+		sp{name: "deviate-replace-type", text: hdr("m") + "leaf r { type int32; } deviation \"/r\" { deviate replace { type string; } } }"},
+		sp{name: "opener-answers-other-module", byName: "a", opener: func(name, ext string) (io.Reader, error) {
+			if name == "a" {
+				return strings.NewReader(hdr("a") + "import b { prefix b; } }"), nil
+			}
+			// whatever is asked for, a module of another name that imports b again
+			return strings.NewReader(hdr("zz") + "import b { prefix b; } }"), nil
+		}},
+		sp{name: "if-feature-deep-parens", text: hdr("m") + "feature f; leaf x { if-feature \"" + strings.Repeat("(", 20000) + "f" + strings.Repeat(")", 20000) + "\"; type string; } }"},
 	)
 	if k >= len(specials) {
 		return
